@@ -117,7 +117,8 @@ def strategy_(draw):
             lo = draw(gen.small())
             c["lb"], c["ub"] = [E.C(lo)], [E.C(lo + draw(st.sampled_from([0.5, 1.0, 2.0])))]
         else:
-            c["rhs"] = [E.C(draw(gen.small()))]
+            lead = e[1][1] if (e[0] in ("-", "+") and e[1][0] == "c") else None   # constant written first: c - e, c + e
+            c["rhs"] = [E.C(draw(gen.small().filter(lambda v: v != lead)))]
         cons.append(c)
     sp["constraints"] = cons
     return {"spec": sp, "unsupported": unsupported, "rng": draw(st.integers(0, 2**31 - 1))}
@@ -247,6 +248,12 @@ def check(case, ctx):
         fails.append(Fail("base-rows-lost", feats, {}))
         return fails
     nsteps = N * M
+    from vlib.build import constraint_mx
+    BW.stage = BW.ocp
+    if len(idx) == 0 and ca.MX(constraint_mx(BW, BW.ocp, sp["constraints"][0])).is_constant():
+        # CasADi itself reduced the relation to a constant (e.g. c + x*x >= c is "1"): a vacuous constraint needs no certificate
+        ctx.count("vacuous_constraint")
+        return fails
     if len(idx) == 0:
         fails.append(Fail("no-rows-added", feats, {"note": "grid='inf' constraint accepted but nothing was imposed"}))
         return fails
